@@ -121,6 +121,11 @@ pub enum Update {
     OutputBip32,
     TapInternalKey,
     Preimage,
+    Scalars,
+    GlobalXpub,
+    OutputScripts,
+    OutputTapInternalKey,
+    UnknownInMap,
 }
 
 pub fn apply_update(r: &mut Rg, p: &mut Pset, u: &Update) -> bool {
@@ -134,12 +139,12 @@ pub fn apply_update_at(r: &mut Rg, p: &mut Pset, u: &Update, ii: usize, oi: usiz
     let ni = p.n_inputs();
     let no = p.n_outputs();
     match u {
-        Update::OutputExplicitProofs | Update::OutputBip32 => {
+        Update::OutputExplicitProofs | Update::OutputBip32 | Update::OutputScripts | Update::OutputTapInternalKey => {
             if no == 0 {
                 return false;
             }
         }
-        Update::Proprietary | Update::Unknown => {}
+        Update::Proprietary | Update::Unknown | Update::Scalars | Update::GlobalXpub | Update::UnknownInMap => {}
         _ => {
             if ni == 0 {
                 return false;
@@ -218,13 +223,58 @@ pub fn apply_update_at(r: &mut Rg, p: &mut Pset, u: &Update, ii: usize, oi: usiz
         }
         Update::Preimage => {
             let pre = gen::bytes(r, 12);
-            p.inputs_mut()[ii].sha256_preimages.insert(elements::hashes::sha256::Hash::hash(&pre), pre);
+            match r.gen_range(0..4) {
+                0 => {
+                    p.inputs_mut()[ii].sha256_preimages.insert(elements::hashes::sha256::Hash::hash(&pre), pre);
+                }
+                1 => {
+                    p.inputs_mut()[ii].ripemd160_preimages.insert(elements::hashes::ripemd160::Hash::hash(&pre), pre);
+                }
+                2 => {
+                    p.inputs_mut()[ii].hash160_preimages.insert(elements::hashes::hash160::Hash::hash(&pre), pre);
+                }
+                _ => {
+                    p.inputs_mut()[ii].hash256_preimages.insert(elements::hashes::sha256d::Hash::hash(&pre), pre);
+                }
+            }
+        }
+        Update::Scalars => {
+            // one to three blinding scalars, in the order they were produced (not sorted)
+            for _ in 0..r.gen_range(1..=3) {
+                let t = gen::tweak(r);
+                if !p.global.scalars.contains(&t) {
+                    p.global.scalars.push(t);
+                }
+            }
+        }
+        Update::GlobalXpub => {
+            let k = gp::xpub(r);
+            p.global.xpub.insert(k, gp::key_source(r));
+        }
+        Update::OutputScripts => {
+            let o = &mut p.outputs_mut()[oi];
+            if r.gen_range(0..2) == 0 {
+                o.redeem_script = Some(gp::small_script(r));
+            } else {
+                o.witness_script = Some(gp::small_script(r));
+            }
+        }
+        Update::OutputTapInternalKey => p.outputs_mut()[oi].tap_internal_key = Some(gp::xonly(r)),
+        Update::UnknownInMap => {
+            let (k, v) = (gp::unknown_key(r), gen::bytes(r, 5));
+            if ni > 0 && (no == 0 || r.gen_range(0..2) == 0) {
+                p.inputs_mut()[ii].unknown.insert(k, v);
+            } else if no > 0 {
+                p.outputs_mut()[oi].unknown.insert(k, v);
+            } else {
+                p.global.unknown.insert(k, v);
+            }
         }
     }
     true
 }
 
-pub const UPDATES: [Update; 18] = [
+pub const UPDATES: [Update; 23] = [
     Update::Sequence,
     Update::PartialSig,
     Update::TapKeySig,
@@ -243,6 +293,11 @@ pub const UPDATES: [Update; 18] = [
     Update::OutputBip32,
     Update::TapInternalKey,
     Update::Preimage,
+    Update::Scalars,
+    Update::GlobalXpub,
+    Update::OutputScripts,
+    Update::OutputTapInternalKey,
+    Update::UnknownInMap,
 ];
 
 fn lock_values() -> (Vec<u32>, Vec<u32>) {
@@ -445,6 +500,7 @@ pub fn run(ctx: &mut Ctx) {
     let fallbacks = [None, Some(0u32), Some(77), Some(499_999_999), Some(500_000_000), Some(1_700_000_000)];
     let no = opts.len() as u64; // 16
     let total = 1 + no + no * no + no * no * no;
+    ctx.seen("exhaustive_subspaces", "C08: every assignment of {none, time(3 values), height(3 values), both(9 pairs)} to 0..=3 inputs x 6 fallbacks (4369 x 6 lock-time computations)");
     ctx.phase("locktime-exhaustive", total, |ctx, k| {
         let (n_in, mut code) = if k == 0 { (0, 0) } else if k < 1 + no { (1, k - 1) } else if k < 1 + no + no * no { (2, k - 1 - no) } else { (3, k - 1 - no - no * no) };
         let mut reqs = Vec::new();
